@@ -30,13 +30,14 @@ def fmtOut : Out St Int → String
   | .dash => "-"
 
 def opNames : List String :=
-  ["ev", "fail", "recreate", "persist", "snap", "clear", "get", "count", "rlog", "stored", "replay", "saves", "burst"]
+  ["ev", "fail", "recreate", "persist", "snap", "clear", "get", "count", "rlog", "stored", "replay", "saves", "burst", "farewell"]
 
 /-- a parsed operation line (after `spawn`) -/
 inductive Line where
   | op (o : Op Int)
   | saves
   | burst (n k : Nat) (v0 : Int)
+  | farewell (v : Int)      -- the actor records event v while handling OnTerminate (0 = nothing)
 
 def parseLine : List String → Option Line
   | ["ev", v] => v.toInt?.map (fun v => .op (.ev v))
@@ -51,6 +52,7 @@ def parseLine : List String → Option Line
   | ["stored"] => some (.op .stored)
   | ["replay"] => some (.op .replay)
   | ["saves"] => some .saves
+  | ["farewell", v] => v.toInt?.map .farewell
   | ["burst", n, k, v0] =>
     match n.toInt?, k.toInt?, v0.toInt? with
     | some n, some k, some v0 => if n < 0 ∨ n > 5000 ∨ k < 0 then none else some (.burst n.toNat k.toNat v0)
@@ -93,6 +95,14 @@ structure H where
   sys : Option (Sys St Int)
   recording : Bool
   savesSeen : Nat
+  farewell : Int := 0
+
+/-- an event recorded while handling `OnTerminate` is a user-level `StateChangeEventApply` in the farewell
+turn of a stop or a restart; the canonical actor handles `OnRestarting`/`OnTerminate`/`OnTerminated` as
+no-ops otherwise and the failing command changes nothing, so "farewell event, then the generation ends" is
+the told event `evq v` placed right before `fail` / `recreate` -/
+def withFarewell (fw : Int) (ops : List (Op Int)) : List (Op Int) :=
+  if fw == 0 then ops else ops.flatMap fun o => if o == .fail || o == .recreate then [.evq fw, o] else [o]
 
 /-- two independent slots: plain lines address slot `a`, lines prefixed with `@b` slot `b`. The slots
     use different persistence names; that they do not influence each other is `C09_names_isolated`
@@ -105,7 +115,7 @@ def twoSlots {τ : Type} (f : τ → List String → τ × String) (h : τ × τ
 
 def modelSuite (v : Variant) : Suite where
   σ := H × H
-  init := (⟨none, false, 0⟩, ⟨none, false, 0⟩)
+  init := (⟨none, false, 0, 0⟩, ⟨none, false, 0, 0⟩)
   step := twoSlots <| wrap (fun h => h.sys.isSome)
     (fun h a =>
       let s := boot v F 0 a.thr (fun _ => none)
@@ -113,7 +123,10 @@ def modelSuite (v : Variant) : Suite where
     (fun h l => match h.sys with
       | none => (h, "err:nospawn")
       | some s => match l with
-        | .op o => let (s', out) := step v F s o; ({ h with sys := some s' }, fmtOut out)
+        | .farewell fw => ({ h with farewell := fw }, "ok")
+        | .op o =>
+          let s := if (o == .fail || o == .recreate) && h.farewell != 0 then (step v F s (.evq h.farewell)).1 else s
+          let (s', out) := step v F s o; ({ h with sys := some s' }, fmtOut out)
         | .saves =>
           let s' := (step v F s .get).1
           if h.recording then
@@ -122,25 +135,32 @@ def modelSuite (v : Variant) : Suite where
             ({ h with sys := some s', savesSeen := s'.saveLog.length }, txt)
           else ({ h with sys := some s' }, "-")
         | .burst n k v0 =>
-          let s1 := run v F s (burstOps (burstEvents n v0) k)
+          let s1 := run v F s (withFarewell h.farewell (burstOps (burstEvents n v0) k))
           let s' := (step v F s1 .get).1
           ({ h with sys := some s' }, fmtOut (.stateL s'.ctx.actor.st s'.launches)))
 
 def model : Suite := modelSuite Variant.code
 def original : Suite := modelSuite Variant.original
 
+structure HS where
+  s : Option (MV.Spec.Persistence.S St) := none
+  farewell : Int := 0
+
 def spec : Suite where
-  σ := Option (MV.Spec.Persistence.S St) × Option (MV.Spec.Persistence.S St)
-  init := (none, none)
-  step := twoSlots <| wrap (fun h => h.isSome)
-    (fun _ _ => let s := MV.Spec.Persistence.S.init F; (some s, fmtOut (.stateL s.cur s.launches : Out St Int)))
-    (fun h l => match h with
+  σ := HS × HS
+  init := ({}, {})
+  step := twoSlots <| wrap (fun h => h.s.isSome)
+    (fun h _ => let s := MV.Spec.Persistence.S.init F; ({ h with s := some s }, fmtOut (.stateL s.cur s.launches : Out St Int)))
+    (fun h l => match h.s with
       | none => (h, "err:nospawn")
       | some s => match l with
-        | .op o => let (s', out) := MV.Spec.Persistence.step F s o; (some s', fmtOut out)
+        | .farewell fw => ({ h with farewell := fw }, "ok")
+        | .op o =>
+          let s := if (o == .fail || o == .recreate) && h.farewell != 0 then (MV.Spec.Persistence.step F s (.evq h.farewell)).1 else s
+          let (s', out) := MV.Spec.Persistence.step F s o; ({ h with s := some s' }, fmtOut out)
         | .saves => (h, "-")
         | .burst n k v0 =>
-          let s' := MV.Spec.Persistence.run F s (burstOps (burstEvents n v0) k)
-          (some s', fmtOut (.stateL s'.cur s'.launches : Out St Int)))
+          let s' := MV.Spec.Persistence.run F s (withFarewell h.farewell (burstOps (burstEvents n v0) k))
+          ({ h with s := some s' }, fmtOut (.stateL s'.cur s'.launches : Out St Int)))
 
 end Oracle.Persistence
